@@ -15,6 +15,11 @@
 (*             fixed/variable boundary                                     *)
 (*  "norm"     attribute names x one form per raw value class x payloads   *)
 (*             around the u8/u16 narrowing boundaries (for value())        *)
+(*  "line"     the line-table variant of the decoder: DWARF 5 line-program *)
+(*             headers whose file-entry format uses every form (as a       *)
+(*             vendor-defined field in front of the path: the path is      *)
+(*             right iff the form consumed its size; as path / directory   *)
+(*             index / size / timestamp / MD5 field: the value)            *)
 (* For every case TLC also runs `skip_attributes` as coded (SkipCoded) and *)
 (* asserts that it lands where reading lands - except where the coded      *)
 (* accumulator overflows usize, which is reported as a design-level note   *)
@@ -145,6 +150,63 @@ NormEncs == {[ver |-> 4, fmt |-> 32, asz |-> 8, le |-> TRUE]} \cup
             (IF FullEnc THEN {[ver |-> 3, fmt |-> 32, asz |-> 4, le |-> FALSE], [ver |-> 5, fmt |-> 64, asz |-> 8, le |-> TRUE],
                               [ver |-> 2, fmt |-> 64, asz |-> 4, le |-> TRUE]} ELSE {})
 
+(* ---- the line-table variant (read/line.rs parse_attribute) ------------- *)
+(* A DWARF 5 line-program header whose file-name entry format is            *)
+(* <<(ctype1, form1), (ctype2, form2)>>; two file entries.  DW_LNCT_path 1,  *)
+(* directory_index 2, timestamp 3, size 4, MD5 5, vendor 0x2001.            *)
+EncLineUnit(enc, fmt2, files) ==
+    LET pair(x) == UlebNat(x[1]) \o UlebNat(x[2])
+        entry(f) == EncPayload(fmt2[1][2], f[1], enc) \o EncPayload(fmt2[2][2], f[2], enc)
+        rest2 == <<1, 1, 1, 251, 14, 13>> \o <<0, 1, 1, 1, 1, 0, 0, 0, 1, 0, 0, 1>>
+                 \o <<1>> \o pair(<<1, 8>>) \o <<1>> \o <<47, 0>>                    \* one directory "/" as DW_FORM_string
+                 \o <<2>> \o pair(fmt2[1]) \o pair(fmt2[2]) \o <<2>> \o entry(files[1]) \o entry(files[2])
+        prog == <<0, 1, 1>>                                                          \* DW_LNE_end_sequence
+        hdr == Fixed(5, 2, enc.le) \o <<enc.asz, 0>> \o Fixed(Len(rest2), W(enc), enc.le) \o rest2 \o prog IN
+    (IF enc.fmt = 64 THEN <<255, 255, 255, 255>> \o Fixed(Len(hdr), 8, enc.le) ELSE Fixed(Len(hdr), 4, enc.le)) \o hdr
+(* forms DWARF 5 section 6.2.4.1 allows for a path; any form may describe a vendor-defined content type *)
+PathForms == {"string", "line_strp", "strp", "strp_sup", "strx", "strx1", "strx2", "strx3", "strx4", "GNU_strp_alt", "GNU_str_index"}
+(* the forms the line-table reader implements *)
+LineForms == {"block1", "block2", "block4", "block", "data1", "data2", "data4", "data8", "data16", "udata", "sdata", "flag",
+              "sec_offset", "string", "strp", "strp_sup", "GNU_strp_alt", "line_strp", "strx", "GNU_str_index", "strx1", "strx2",
+              "strx3", "strx4"}
+LineVal(c, p) == LET f == FormOf(c) IN
+                 IF f.nm = "data16" THEN {[kind |-> "Block", v |-> p.val], [kind |-> "Data16", v |-> p.val]}
+                 ELSE {[kind |-> f.kind, v |-> NumV(c, p)]}
+Str(i) == [data |-> <<112, 48 + i>>]           \* "p1", "p2"
+(* kind "skip": (vendor, F) then (path, string): the path is right iff F consumed its encoded size *)
+LineSkipCase(enc, c, p1, p2) ==
+    [t |-> "line", sub |-> "skip", enc |-> enc, forms |-> <<c>>, names |-> <<0>>, le |-> enc.le,
+     line |-> EncLineUnit(enc, <<<<8193, c>>, <<1, 8>>>>, <<<<p1, Str(1)>>, <<p2, Str(2)>>>>),
+     must |-> FormOf(c).nm \in LineForms,
+     files |-> <<[path |-> {[kind |-> "String", v |-> Str(1).data]}], [path |-> {[kind |-> "String", v |-> Str(2).data]}]>>,
+     codedok |-> TRUE, ovf |-> FALSE, trunc |-> FALSE]
+(* kind "path": (path, F) then (directory_index, data1) *)
+LinePathCase(enc, c, p1, p2) ==
+    [t |-> "line", sub |-> "path", enc |-> enc, forms |-> <<c>>, names |-> <<0>>, le |-> enc.le,
+     line |-> EncLineUnit(enc, <<<<1, c>>, <<2, 11>>>>, <<<<p1, [val |-> <<170>>]>>, <<p2, [val |-> <<187>>]>>>>),
+     must |-> TRUE,
+     files |-> <<[path |-> LineVal(c, p1), dir |-> FromNat(170, 8)], [path |-> LineVal(c, p2), dir |-> FromNat(187, 8)]>>,
+     codedok |-> TRUE, ovf |-> FALSE, trunc |-> FALSE]
+(* kind "md5": (path, string) then (MD5, data16); kind "num": (path, string) then (size / timestamp / directory_index, F) *)
+LineMd5Case(enc, v1, v2) ==
+    [t |-> "line", sub |-> "md5", enc |-> enc, forms |-> <<30>>, names |-> <<0>>, le |-> enc.le,
+     line |-> EncLineUnit(enc, <<<<1, 8>>, <<5, 30>>>>, <<<<Str(1), [val |-> v1]>>, <<Str(2), [val |-> v2]>>>>),
+     must |-> TRUE,
+     files |-> <<[path |-> {[kind |-> "String", v |-> Str(1).data]}, md5 |-> Lay(v1, enc.le)],
+                 [path |-> {[kind |-> "String", v |-> Str(2).data]}, md5 |-> Lay(v2, enc.le)]>>,
+     codedok |-> TRUE, ovf |-> FALSE, trunc |-> FALSE]
+LineNumCase(enc, ctype, c, p1, p2) ==
+    LET key == <<"", "dir", "timestamp", "size">>[ctype] IN
+    [t |-> "line", sub |-> key, enc |-> enc, forms |-> <<c>>, names |-> <<0>>, le |-> enc.le,
+     line |-> EncLineUnit(enc, <<<<1, 8>>, <<ctype, c>>>>, <<<<Str(1), p1>>, <<Str(2), p2>>>>),
+     must |-> TRUE,
+     files |-> <<[path |-> {[kind |-> "String", v |-> Str(1).data]}] @@ (key :> NumV(c, p1)),
+                 [path |-> {[kind |-> "String", v |-> Str(2).data]}] @@ (key :> NumV(c, p2))>>,
+     codedok |-> TRUE, ovf |-> FALSE, trunc |-> FALSE]
+WellFormedP(c, p) == ~Truncated(c, p)
+TwoPayloads(c, enc) == LET P == {p \in Payloads(c, enc) : WellFormedP(c, p)} IN
+                       {<<Typical(c, enc), p>> : p \in P} \cup {<<p, Typical(c, enc)>> : p \in P}
+
 (* ---- exploration ------------------------------------------------------- *)
 Init == s = [ph |-> "root"]
 (* level 1: fan out over (sub-model, encoding) so that the workers share the load *)
@@ -153,6 +215,7 @@ Fan == /\ s.ph = "root"
             /\ (m \in {"lists"} => enc \in ListEncs)
             /\ (m \in {"norm"} => enc \in NormEncs)
             /\ (m \in {"legacy", "indirect"} => enc.asz = (IF enc.le THEN 8 ELSE 4))
+            /\ (m = "line" => enc.ver = 5 /\ enc.asz = (IF enc.le THEN 8 ELSE 4))
             /\ s' = [ph |-> "enc", m |-> m, enc |-> enc]
 EncDependent(c) == FormOf(c).sz \in {"asz", "refaddr"}
 AszOk(c, enc) == FullEnc \/ EncDependent(c) \/ enc.asz = (IF enc.le THEN 8 ELSE 4)
@@ -182,9 +245,27 @@ Gen == /\ s.ph = "enc"
                  \E k \in 1..MaxList : \E t \in Tuples(NReps, k) :
                     /\ EmitCase(Case("lists", enc, [i \in 1..k |-> Reps(enc)[t[i]]]))
                     /\ s' = [ph |-> "done", k |-> <<s.m, enc, t>>]
+            [] s.m = "line" -> FALSE
             [] s.m = "norm" ->
                  \E name \in NormNames : \E nm \in NormForms : \E p \in NormPayloads(FormNamed(nm), enc) :
                     /\ EmitCase(Case("norm", enc, <<[name |-> name, form |-> FormNamed(nm), p |-> p]>>))
                     /\ s' = [ph |-> "done", k |-> <<s.m, enc, name, nm, p>>]
-Next == Fan \/ Gen
+GenLine ==
+    /\ s.ph = "enc" /\ s.m = "line"
+    /\ LET enc == s.enc IN
+       \/ \E c \in FormCodes \ {FormNamed("indirect"), FormNamed("implicit_const"), 48} : \E pp \in TwoPayloads(c, enc) :
+             /\ Emit(LineSkipCase(enc, c, pp[1], pp[2]))
+             /\ s' = [ph |-> "done", k |-> <<"line-skip", enc, c, pp>>]
+       \/ \E c \in {f.c : f \in {g \in FormTable : g.nm \in PathForms}} : \E pp \in TwoPayloads(c, enc) :
+             /\ Emit(LinePathCase(enc, c, pp[1], pp[2]))
+             /\ s' = [ph |-> "done", k |-> <<"line-path", enc, c, pp>>]
+       \/ \E v \in FixedVals(16) :
+             /\ Emit(LineMd5Case(enc, v, [i \in 1..16 |-> 15 + i]))
+             /\ s' = [ph |-> "done", k |-> <<"line-md5", enc, v>>]
+       \/ \E x \in {<<2, "data1">>, <<2, "data2">>, <<2, "udata">>, <<3, "udata">>, <<3, "data4">>, <<3, "data8">>,
+                      <<4, "udata">>, <<4, "data1">>, <<4, "data2">>, <<4, "data4">>, <<4, "data8">>} :
+          \E pp \in TwoPayloads(FormNamed(x[2]), enc) :
+             /\ Emit(LineNumCase(enc, x[1], FormNamed(x[2]), pp[1], pp[2]))
+             /\ s' = [ph |-> "done", k |-> <<"line-num", enc, x, pp>>]
+Next == Fan \/ Gen \/ GenLine
 =============================================================================
